@@ -29,7 +29,8 @@ func (c countOp) Operation() (interface{}, error) {
 // treats that as the verdict for the run announced last on stderr.
 func ProcRuns(w *vt.W, rng *rand.Rand, runs int) {
 	maxT := runtime.GOMAXPROCS(0)
-	for id := 0; id < runs; id++ {
+	badRuns := 0
+	for id := 0; id < runs && badRuns < 5; id++ {
 		t := 1 + rng.Intn(maxT)
 		if rng.Intn(2) == 0 {
 			t = 1 + rng.Intn(4)
@@ -108,6 +109,9 @@ func ProcRuns(w *vt.W, rng *rand.Rand, runs int) {
 				}
 			}
 			sort.Ints(got)
+			if bad != "" || !closed {
+				badRuns++ // each costs a time-out: a handful is enough for a verdict
+			}
 			w.Emit(vt.Ev{"op": "procrun", "id": id, "t": t, "n": n, "b": n + 1, "q": n + 1, "results": got, "closed": closed,
 				"waited": true, "bad": bad})
 			continue
@@ -167,6 +171,9 @@ func ProcRuns(w *vt.W, rng *rand.Rand, runs int) {
 		sort.Ints(got)
 		if got == nil {
 			got = []int{}
+		}
+		if bad != "" || !closed || !waited {
+			badRuns++
 		}
 		w.Emit(vt.Ev{"op": "procrun", "id": id, "t": t, "n": n, "b": b, "q": q, "results": got, "closed": closed,
 			"waited": waited, "bad": bad})
